@@ -93,7 +93,7 @@ def one_stage(ctx, name, n, env, shard, off, timeout=1500):
 
 
 def run(ctx):
-    n = {"quick": 400, "thorough": 12000}[ctx.tier]
+    n = {"quick": 400, "thorough": 8000}[ctx.tier]
     # scratch copies of modelled files for mutation experiments: VERIF_C11_REPLACE="rel/path.go=/abs/copy.go,..."
     ctx.c11_replace = None
     if os.environ.get("VERIF_C11_REPLACE"):
